@@ -61,9 +61,9 @@ CHECKS = {
         "6 C15",
     ),
     "C03": (
-        "proptest-generated lines and protocol-respecting call sessions (enter/execute/interrupt/snapshot/set_listing) against a validity predicate: catch_unwind, wedge watchdog, bounded recovery to READY",
+        "proptest-generated lines and protocol-respecting call sessions (enter/execute/interrupt/snapshot/set_listing) against a validity predicate: catch_unwind, wedge watchdog, bounded recovery to READY; deepest-possible nesting in child processes; code-pool boundary sessions; thorough tier adds a coverage-guided libFuzzer campaign (cargo-fuzz target c03_session, same decoder and oracle in-target)",
         "Exploration by generated inputs and schedules: hundreds of thousands of lines (snippets, token soup over the whole vocabulary, mutations, arbitrary UTF-8, 1024-byte lines) and sessions per run, each ending with the recovery clause (interrupt, Stopped within 16 calls, PRINT 1 works). A panic anywhere in the library or a call that does not return is reported with the shrunk session.",
-        "Absence only up to sampling. Wedges are wall-clock based (20 s per case, re-confirmed in a fresh process). The terminal protocol of src/term/mod.rs is assumed; the real terminal (readline, signals, files) is emulated.",
+        "Absence only up to sampling. Wedges are judged on the case's CPU time (20 s per case, re-confirmed in a fresh process); libFuzzer artifacts count only when the harness replay reproduces them. The terminal protocol of src/term/mod.rs is assumed; the real terminal (readline, signals, files) is emulated.",
         "6 C03",
     ),
     "C04": (
@@ -73,8 +73,8 @@ CHECKS = {
         "6 C04",
     ),
     "C05": (
-        "bounded-exhaustive enumeration of short strings over four lexical alphabets x six contexts + proptest random long lines, round-trip oracle (list, re-enter, list) on number / column-free AST / text / literals, via Line, Listing::load_str and the runtime's LIST",
-        "Exploration with a round-trip oracle. The small-scope part is complete: every string of up to k symbols of each alphabet in each context (1.1 million lines per quick run, k up to 6 in thorough) is listed and re-entered; the lexer's scanners are driven through every short combination of digits, exponent letters, suffixes, radix prefixes, relational characters, quotes, remark markers and keyword letters. Long random lines (soup, mutated/re-spelled snippets, arbitrary UTF-8) sample the rest.",
+        "bounded-exhaustive enumeration of short strings over five lexical alphabets x six contexts + proptest random long lines (incl. lines at the 1024-byte limit) + in thorough a coverage-guided libFuzzer campaign (cargo-fuzz target c05_roundtrip, oracle in-target), round-trip oracle (list, re-enter, list) on number / column-free AST / text / literals, via Line, Listing::load_str and the runtime's LIST",
+        "Exploration with a round-trip oracle. The small-scope part is complete: every string of up to k symbols of each alphabet in each context (3.6 million lines per quick run, k up to 6 in thorough) is listed and re-entered; the lexer's scanners are driven through every short combination of digits, exponent letters, suffixes, radix prefixes, relational characters, quotes, remark markers and keyword letters. Long random lines (soup, mutated/re-spelled snippets, arbitrary UTF-8) sample the rest.",
         "Meaning = public AST with columns erased. File I/O of SAVE/LOAD is emulated by Listing::load_str. Beyond length k only sampled.",
         "6 C05",
     ),
